@@ -82,6 +82,11 @@ def cases(tier, seed):
                 n = L if style in ('unit', 'unit_phase') else reps
                 for r in range(n):
                     yield dict(kind='linear', L=L, ftype=ftype, style=style, idx=r, seed=int(rng.integers(1 << 31)))
+        # the long spellings of the type argument accepted by the pinned source
+        for ftype in ('create', 'creation', 'annihilate', 'annihilation'):
+            for style in ('complex', 'unit'):
+                if style in VEC_STYLES:
+                    yield dict(kind='linear', L=L, ftype=ftype, style=style, idx=0, seed=int(rng.integers(1 << 31)))
 
 
 def coeff_vector(rng, L, style, idx):
@@ -178,7 +183,7 @@ def run_case(c):
         rng = np.random.default_rng(c['seed'])
         f = coeff_vector(rng, L, c['style'], c['idx'])
         ft = c['ftype']
-        other = 'a' if ft == 'c' else 'c'
+        other = 'a' if ft in ('c', 'create', 'creation') else 'c'
         call = f'linear_fermionic_mpo({f.tolist()!r}, {ft!r})'
         mats = {}
         for typ, vec in ((ft, f), (other, np.conj(f))):
